@@ -64,6 +64,8 @@ class Flow(object):
         self.scope = scope
         self._names = []  # type: list[Name]
         self.parents = parents or []  # type: t.MutableSequence[Flow | LoopFlow]
+        self._tables = {}  # type: dict[str, t.Mapping[str, Name | MultiName]]
+        self._loop_tables = {}  # type: dict[str, t.Mapping[str, Name | MultiName]]
 
     def __repr__(self):
         # type: () -> str
@@ -78,13 +80,47 @@ class Flow(object):
             self.scope.locals.add(name.name)
             insert_loc(self._names, name)
 
-    @cached_property
+    def _table(self, kind, compute):
+        # type: (str, t.Callable[[], t.Mapping[str, Name | MultiName]]) -> t.Mapping[str, Name | MultiName]
+        try:
+            return self._tables[kind]
+        except KeyError:
+            pass
+
+        top = self.scope.top
+        if not top._resolving:
+            result = self._tables[kind] = compute()
+            return result
+
+        # A table computed while a loop is being resolved lacks the back edge
+        # of that loop: it is kept only until the resolution is over.
+        tables = self._loop_tables
+        try:
+            return tables[kind]
+        except KeyError:
+            pass
+
+        result = compute()
+        if not tables:
+            top._loop_tables.append(tables)
+        tables[kind] = result
+        return result
+
+    @property
     def names(self):
+        # type: () -> t.Mapping[str, Name | MultiName]
+        return self._table('names', self._get_names)
+
+    @property
+    def parent_names(self):
+        # type: () -> t.Mapping[str, Name | MultiName ]
+        return self._table('parent_names', self._get_parent_names)
+
+    def _get_names(self):
         # type: () -> t.Mapping[str, Name | MultiName]
         return MergedDict({n.name: n for n in self._names}, self.parent_names)
 
-    @cached_property
-    def parent_names(self):
+    def _get_parent_names(self):
         # type: () -> t.Mapping[str, Name | MultiName ]
         if len(self.parents) == 1:
             return self.parents[0].names  # type: ignore[return-value]
@@ -130,31 +166,38 @@ class Flow(object):
 
 
 class LoopFlow(object):
-    if False:
-        _names = None  # type: t.Mapping[str, Name | MultiName]
-
     def __init__(self, parent):
         # type: (Flow) -> None
         self.parent = parent
-        self._resolving = False
+        self._tables = {}  # type: dict[str, t.Mapping[str, Name | MultiName]]
+        self._loop_tables = {}  # type: dict[str, t.Mapping[str, Name | MultiName]]
 
     @property
     def names(self):
         # type: () -> t.Mapping[str, Name | MultiName] | Unresolved
-        if self._resolving:
+        top = self.parent.scope.top
+        resolving = top._resolving
+        if self in resolving:
             return UNRESOLVED
 
+        # names seen from inside the resolution of another loop are not final
+        tables = self._loop_tables if resolving else self._tables
         try:
-            return self._names
-        except AttributeError:
+            return tables['names']
+        except KeyError:
             pass
 
-        self._resolving = True
+        resolving.append(self)
         try:
-            result = self._names = self.parent.names
+            result = self.parent.names
         finally:
-            self._resolving = False
+            resolving.pop()
+            if not resolving:
+                top.drop_loop_tables()
 
+        if resolving and not tables:
+            top._loop_tables.append(tables)
+        tables['names'] = result
         return result
 
 
@@ -178,10 +221,18 @@ class SourceScope(Scope):
         self._star_imports = []
         self._attr_assigns = []
         self._global_names = {}
+        self._resolving = []  # type: list[LoopFlow]
+        self._loop_tables = []  # type: list[dict[str, t.Mapping[str, Name | MultiName]]]
 
     def __repr__(self):
         # type: () -> str
         return 'SourceScope({})'.format(self.source.filename)
+
+    def drop_loop_tables(self):
+        # type: () -> None
+        for tables in self._loop_tables:
+            tables.clear()
+        self._loop_tables[:] = []
 
     @property
     def names(self):
